@@ -646,7 +646,7 @@ def gen_model(rng, n_ops=None, n_subgraphs=1, kinds=None, share=0.0, own_buffers
     return g.bytes(), info
 
 
-def random_inputs(model_bytes, rng, sg_info=None, n=1, scale=None, spread=False):
+def random_inputs(model_bytes, rng, sg_info=None, n=1, scale=None, spread=False, batch=None):
     """signature-keyed input data for calibrate()/validate(): {sig_key or None: [ {arg: array} ]}"""
     m = flatbuffer_utils.read_model_from_bytearray(bytearray(model_bytes))
     out = {}
@@ -662,6 +662,9 @@ def random_inputs(model_bytes, rng, sg_info=None, n=1, scale=None, spread=False)
             for tm in sd.inputs:
                 t = sg.tensors[tm.tensorIndex]
                 shape = [int(x) for x in t.shape]
+                sig_ = getattr(t, "shapeSignature", None)
+                if batch and sig_ is not None and len(sig_) and int(sig_[0]) == -1:
+                    shape[0] = batch    # a dynamic batch dimension accepts any batch size
                 if t.type == TT.INT32:
                     d[tm.name.decode()] = r.randint(0, 2, size=shape).astype(np.int32)
                 else:
